@@ -19,7 +19,7 @@ CHUNK = 60
 PROBES = ['large_capture', 'record_with_zero_timestamp_and_debugid', 'pid_with_top_bit_set', 'abandoned_parse_before', 'crashed_parse_before', 'v3_with_logs_before', 'residue_before', 'duplicate_tid_in_map',
           'duplicate_pid_in_map', 'empty_map', 'pad_nonzero', 'pad_zero', 'arbitrary_record_bytes', 'name_19_bytes',
           'bytes_after_nul', 'same_kdbuf_object_reused', 'zero_records', 'first_record_leading_zero',
-          'other_request_pending_when_created', 'listings_read_in_turns', 'read_through_gzip_stream', 'same_stream_rewound_and_read_again', 'stream_positioned_behind_a_prefix', 'parser_built_with_one_table']
+          'other_request_pending_when_created', 'listings_read_in_turns', 'read_through_gzip_stream', 'same_stream_rewound_and_read_again', 'stream_positioned_behind_a_prefix', 'parser_built_with_one_table', 'read_from_a_real_buffered_file']
 RULE = ('one run = a history of 1..7 operations on one long-lived table pair (full / abandoned / crashed / v3 parses, residue '
         'writes) followed by the judged complete parse of a seeded v2 file (thread map 0..8 entries with duplicate keys, pad '
         '0..4 KiB, 0..40 records from SimKernel or arbitrary bytes); non-trivial = the history left >= 1 table entry that the '
@@ -90,12 +90,15 @@ def generate(rng, index, tier):
         judged['writer']['tmap'] = [[rng.randrange(1, 3000), rng.randrange(1, 500), rng.ident(1, 10), ''] for _ in range(n)]
         judged['raw_records'] = [(bytes([1 + i % 255]) + rng.randbytes(63)).hex() for i in range([300, 1100, 5000][(index // 211) % 3])]
         judged.pop('zero_lead', None)
+        big_stream = rng.pick([None, 'file', 'file', 'gzip'])      # (big dumps also through a real buffered file: more than one buffer)
     if rng.chance(0.04):
         # finding F11: a first record that begins with zero bytes (statement: "including records that begin with zero bytes")
         judged['zero_lead'] = rng.randint(1, 8)
     scn = {'history': hist, 'judged': judged, 'api': rng.pick(API)}
-    if rng.chance(0.08):
-        scn['stream'] = rng.pick(['gzip', 'twice-raw', 'twice-bytes', 'offset', 'offset'])
+    if index % 211 == 9 and big_stream:
+        scn['stream'] = big_stream
+    elif rng.chance(0.08):
+        scn['stream'] = rng.pick(['gzip', 'twice-raw', 'twice-bytes', 'offset', 'offset', 'file', 'file'])
     if rng.chance(0.12):
         # requests are lazy: another request on the same tables is created before or after the judged one is created and
         # is consumed completely before the judged one is pulled for the first time (the schedule of first pulls is seeded)
@@ -257,6 +260,17 @@ def execute(scn):
         gc.collect()
         data_stream.seek(0)
         bump('probe:same_stream_rewound_and_read_again')
+    elif scn.get('stream') == 'file' and not scn.get('pending'):
+        # the dump is a real file opened the ordinary way (a buffered reader with peek(), readinto(), a file descriptor)
+        import tempfile
+        td = tempfile.mkdtemp(prefix='c02f')
+        pth = os.path.join(td, 'dump')
+        with open(pth, 'wb') as f_:
+            f_.write(data)
+        fh = open(pth, 'rb')
+        cleanup.append((fh, td))
+        bump('probe:read_from_a_real_buffered_file')
+        data_stream = fh
     elif scn.get('stream') == 'offset' and not scn.get('pending'):
         # the dump sits behind something else in the stream and the stream is handed over positioned at the dump's first byte
         prefix = b'KTRA' + bytes(range(1, 29))
